@@ -150,7 +150,11 @@ var rR26 = RuleRef{Name: "R26", Doc: "no aliasing between keys: a container stor
 				ok2 := c.freshValue(val, 0, map[ssa.Value]bool{})
 				why := "stored container is not provably fresh"
 				if !ok2 {
-					src, _ := c.originKeys(val)
+					src, unknownOrigin := c.getOrigins(val)
+					if unknownOrigin {
+						src = nil
+						why = "stored container may be an existing object of unknown origin (a callee returns a non-fresh value on some path)"
+					}
 					allSame := len(src) > 0
 					for _, sk := range src {
 						if sk != k {
@@ -795,4 +799,59 @@ func nilBaseAppend(v ssa.Value) string {
 		return true
 	})
 	return bad
+}
+
+// getOrigins: the keys whose db.Get result the value may be (through phis, extracts, type assertions and local cells);
+// unknown is set when some path yields a non-fresh value of another provenance (parameter, callee result that is not fresh...).
+func (c *C) getOrigins(v ssa.Value) (keys []string, unknown bool) {
+	seen := map[ssa.Value]bool{}
+	ks := map[string]bool{}
+	var walk func(v ssa.Value)
+	walk = func(v ssa.Value) {
+		if v == nil || seen[v] {
+			return
+		}
+		seen[v] = true
+		switch x := v.(type) {
+		case *ssa.Phi:
+			for _, e := range x.Edges {
+				walk(e)
+			}
+		case *ssa.Extract:
+			walk(x.Tuple)
+		case *ssa.TypeAssert:
+			walk(x.X)
+		case *ssa.ChangeInterface:
+			walk(x.X)
+		case *ssa.MakeInterface:
+			walk(x.X)
+		case *ssa.Const:
+		case *ssa.UnOp:
+			if al, ok := x.X.(*ssa.Alloc); ok && x.Op == token.MUL {
+				for _, r := range *al.Referrers() {
+					if st, ok := r.(*ssa.Store); ok && st.Addr == al {
+						walk(st.Val)
+					}
+				}
+				return
+			}
+			unknown = true
+		case *ssa.Call:
+			if a := c.keyspaceAccess(x); a != nil && a.Map == "db" && a.Method == "Get" {
+				ks[canon(a.Key)] = true
+				return
+			}
+			if !c.freshValue(x, 0, map[ssa.Value]bool{}) {
+				unknown = true
+			}
+		case *ssa.Alloc:
+		default:
+			unknown = true
+		}
+	}
+	walk(v)
+	for k := range ks {
+		keys = append(keys, k)
+	}
+	return
 }
